@@ -169,8 +169,9 @@ pub fn execute(ops: &[Op], verbose: bool) -> Outcome {
         cx.step = i;
         let r = guarded(|| step(&mut cx, &mut st, op));
         if let Err(m) = r {
+            // (not attributed to C11: a target that silently still represents an
+            // earlier hash is internally valid; what panicked is a query on it)
             cx.fail("C17.no_panic", "step", format!("operation panicked: {}", m));
-            cx.fail("C11.no_unexpected_panic", "tgt:step", format!("target/position-array operation panicked: {}", m));
             break;
         }
     }
@@ -373,10 +374,13 @@ fn tinit(cx: &mut Ctx, st: &mut State, ti: usize, hi: usize, via: u8) {
 #[cfg(feature = "f-unchecked")]
 fn unchecked_twin(cx: &mut Ctx, tg: &FuzzyHashCompareTarget, x: &Member, differs: bool) {
     use ssdeep::BlockSizeRelation;
-    if !differs {
+    // contract of compare_unequal*: the two hashes are different -- judged by
+    // what the target itself says it holds, so that a target that wrongly
+    // still represents another hash does not make *this harness* break the
+    // contract (that defect is C17's to report, through its own checks)
+    if !differs || tg.is_equiv(&x.ln) {
         return;
     }
-    // contract of compare_unequal*: the two hashes are different
     let checked = tg.compare(&x.ln);
     let un = unsafe { tg.compare_unequal_unchecked(&x.ln) };
     let slow = tg.compare_unequal(&x.ln);
